@@ -67,6 +67,7 @@ RULE = ('generated schemas (rule references incl. the same rule twice in one nam
         'lists (rule names, bindings) of the Lean matcher on the exported node pool vs the real Checker, before and after save/load; '
         'the set of (rule, bindings) the Lean SOURCE-LEVEL semantics (srcMatch on the AST, no compiled model) gives for every name vs the set '
         'the real Checker reports and vs the set the Python oracle gives; '
+        '9%: other texts (the same text once / twice, a nearby text, a text that raises, a text the grammar refuses) are compiled in the process BEFORE the judged compilation; 9%: every name is put to both checkers a second time after searches abandoned at their first result and after check() calls (the second pass is reported when it differs). '
         'oracle: the set of (rule, bindings) equals the source-level semantics. non-trivial = some name matches and some does not; '
         'distinct = distinct (schema, names)')
 
@@ -100,6 +101,21 @@ def cases(rng, tier):
         case = {'schema': schema, 'names': names, 'digest': rng.random() < 0.1}
         if asym is not None:
             case['oracle_only'] = True
+        r = rng.random()
+        if r < 0.09:
+            # state carried between compilations: texts compiled in this process BEFORE the one that is judged - the same
+            # text (once / twice), a nearby text over the same identifiers, a text that raises, a text the grammar refuses
+            sib = L.sibling_schema(rng, schema)
+            q = rng.random()
+            case['before'] = ([['self']] if q < 0.4 else [['self'], ['self']] if q < 0.5 else
+                              [['self'], ['text', L.broken_schema(rng, schema), 'bad']] if q < 0.65 else
+                              [['text', L.broken_schema(rng, schema), 'bad']] if q < 0.75 else
+                              [['raw', rng.choice(L.RAW_TEXTS)], ['self']] if q < 0.8 or sib is None else
+                              [['text', sib, 'sibling']] if q < 0.9 else [['self'], ['text', sib, 'sibling']])
+        elif r < 0.18:
+            # state carried between searches: every name is put to both checkers a second time, after searches that were
+            # abandoned at their first result and after check() calls (which return from inside two nested searches)
+            case['again'] = True
         yield case
 
 
@@ -154,6 +170,13 @@ def run_impl(case):
     fns = L.user_fns(L.FN_NAMES + (['$first'] if case.get('oracle_only') else []))
     spec = L.Spec(case['schema'], fns)
     res = {'token': None, 'ctoken': None, 'symbols': None}
+    if case.get('before'):
+        def _quiet(sch):
+            try:
+                compile_lvs(L.pp(sch))
+            except Exception:           # noqa
+                pass
+        L.run_session_prefix(case['before'], case['schema'], _quiet, compile_lvs)
     try:
         model = compile_lvs(L.pp(case['schema']))
     except Exception as e:              # noqa
@@ -174,6 +197,28 @@ def run_impl(case):
     L.cap_steps(ck)
     L.cap_steps(ck2)
     names = [L.name_bytes(n, case['digest']) for n in case['names']]
+    first = _pass(res, ck, ck2, names, spec)
+    if case.get('again'):
+        for nb in names:
+            for c in (ck, ck2):
+                try:
+                    next(iter(c.match(list(nb))), None)
+                except Exception:       # noqa
+                    pass
+        for p in names[:6]:
+            for k in names[:6]:
+                L.impl_check(ck, p, k)
+                L.impl_check(ck2, p, k)
+        res2 = {}
+        # both passes are judged by the same oracle: the second one is reported when it differs from the first
+        if _pass(res2, ck, ck2, names, spec) != first:
+            res.update(res2)
+            res['second_pass_differs'] = True
+    return res
+
+
+def _pass(res, ck, ck2, names, spec):
+    """every name put to the checker and to the reloaded one; fills `res`, returns what was observed"""
     res['matches'], res['matches_reloaded'], res['verdict'] = [], [], []
     res['checker_sets'], res['spec_sets'] = [], []      # per name: canonical set of (rule, bindings), or 'skipped'
     for nb in names:
@@ -203,7 +248,7 @@ def run_impl(case):
             extra = sorted(got - exp)
             miss = sorted(exp - got)
             res['verdict'].append('DIFF extra=%s missing=%s' % (extra[:3], miss[:3]))
-    return res
+    return [res['matches'], res['matches_reloaded'], res['verdict']]
 
 
 def model_line(case, impl):
@@ -312,6 +357,10 @@ def tags(case, impl):
         t.append('schema:redefinition')
     if case.get('oracle_only'):
         t.append('schema:order-sensitive-user-function(oracle only)')
+    if case.get('before'):
+        t.append('compiled-before:' + L.session_shape(case['before']))
+    if case.get('again'):
+        t.append('searched-again-after-abandoned-searches-and-checks' + (':DIFFERS' if impl.get('second_pass_differs') else ''))
     for m, tg in (('#r2', 'later-definition-carries-constraints-referred-twice'), ('#u3', 'triple-or-nested-reference'), ('#_d', 'temporary-rule-id-twice')):
         if m in ids:
             t.append('motif:' + tg)
